@@ -32,7 +32,8 @@ TOKENS = ['uint:8', 'u5', 'int:7', 'hex:8', 'hex', 'bin:3', 'bin', 'oct:6', 'flo
           'e2m1mxfp', 'e8m0mxfp', 'mxint', '>H', '<hb', '=I', 'uint:n', 'int', 'uint', 'float', 'uint:0', 'uint:-1', 'foo', 'u', '2*u4', '3*(bin:1, pad:1)',
           'hex:7', 'float:12', 'bool:2', '', ',', 'uint:8=3', '0xff', '2*(', 'bytes:0', 'bits:0', 'pad:0', 'bin:0', 'uint:1000', 'pad', 'bool, bool', 'intle:8',
           'pad:99999999999999999999999', 'uint:18446744073709551616', 'bits:99999999999999999999', 'hex:340282366920938463463374607431768211456',
-          'x*(u8), 3*(u8)', '2*(u8), y*(bool)', '0*(u8)', '2*(2*(bool))', '3*bool, n*(u4)', '99999999999999999999*u8', '0*u8', '-1*u8', 'x*u8']
+          'x*(u8), 3*(u8)', '2*(u8), y*(bool)', '0*(u8)', '2*(2*(bool))', '3*bool, n*(u4)', '99999999999999999999*u8', '0*u8', '-1*u8', 'x*u8',
+          '>99999999999999999999h', '<2h99999999999999999999b', '>0h']
 BAD_STRINGS = ['', ' ', '0x', '0b2', '0xfg', 'uint:8=300', 'foo=1', '=', ':', '0o8', '1*', '*3', '2*(0b1', 'uint:8=,', 'ue=-1', 'float:32=abc', '0b1,,0b0',
                'int:0=0', '0X_F', 'bin=', 'bytes:1=a', 'bits:3=0b1', 'pad:-1', 'uint8=1, ', '()',
                'x*(0b1),3*(0b1)', 'a*(0b1), 2*(0x1)', '2*(0b1),x*(3*(0b1))', '(0b1)', '*(0b1)', '2*(0b1))', '-1*(0b1)', '99999999999999999999*(0b1)',
@@ -210,6 +211,9 @@ class EChaos(Engine):
         if a in ('int', "'int'") or 'Optional[int]' in a or pname in ('n', 'bits', 'pos', 'start', 'end', 'count', 'i', 'length', 'offset'):
             cap = None
             if member in ('__mul__', '__rmul__', '__imul__'):
+                if n == 0 and cname != 'Array':
+                    # nothing to repeat: any count is feasible for an empty bitstring
+                    return {'t': 'int', 'v': g.pick([0, 1, -1, 7, 2 ** 31, 2 ** 63 - 1, 2 ** 63, 2 ** 64, 10 ** 30])}
                 cap = max(1, min(1000, 200000 // max(n, 1)))
             if cname == 'Array':
                 cap = 10 ** 6 if member not in ('__lshift__', '__ilshift__', '__rshift__', '__irshift__', '__mul__', '__imul__', '__rmul__') else 4096
